@@ -607,6 +607,14 @@ func (c *FnCtx) evalIndex(st *State, x *ast.IndexExpr) Val {
 		idx = c.define("idx", S64, idx)
 		c.oblige(st, "bounds", x.Pos(), and(nonneg, app("bvslt", idx, b.Len)), "index out of range")
 		return c.elemAt(b, idx, "e")
+	case SV:
+		// locally made map with integer keys and values (see makeScalarMap): an SMT array; absent keys read the zero value
+		if b.S.K == KArray {
+			kv, ok := c.eval(st, x.Index).(SV)
+			if ok && kv.S.K == KBV {
+				return SV{app("select", b.T, resize(kv.T, kv.S.W, 64, kv.Signed)), *b.S.Elem, b.Signed}
+			}
+		}
 	case OpaqueVal:
 		// map read: arbitrary value
 		c.eval(st, x.Index)
